@@ -23,7 +23,8 @@ from . import common
 from .common import Check, Graph
 
 KINDS = ["none", "login", "normal", "seed", "eq", "upload", "temp", "asset", "wrapper", "proxyonly"]
-BEHAVIOURS = ["ignore", "take", "takeResume", "resume", "inject", "rewrite", "nostream", "raise", "takeRaise", "handled"]
+BEHAVIOURS = ["ignore", "take", "takeResume", "resume", "inject", "rewrite", "nostream", "raise", "takeRaise", "handled",
+              "clearcap", "setcap"]
 REGION_ADDRS = {1: ("127.0.0.1", 13001), 2: ("127.0.0.1", 13002)}
 ADDON_URL = "https://rewritten-by-addon.test/elsewhere?x=1"
 ASSET_URL = "http://asset-cdn.test/viewerasset"
@@ -246,6 +247,12 @@ class Scripted:
             raise ScriptedRaise("hook after take")
         elif b == "handled":
             return True
+        elif b == "clearcap":
+            flow.cap_data = None
+        elif b == "setcap":
+            alt = self.world.alt_cap(flow)
+            if alt is not None:
+                flow.cap_data = alt
         return None
 
     def handle_http_request(self, session_manager, flow):
@@ -342,6 +349,19 @@ class World:
         self.AddonManager.init([], self.sm, list(self.addons), swallow_addon_exceptions=True)
         self.em = MITMProxyEventManager(self.sm, self.ctx)
         return self
+
+    def alt_cap(self, flow):
+        """The cap an addon re-attributes a flow to (HttpFlow!AltCap): another kind, region 2 of
+        the first session that is still open."""
+        import weakref
+        from hippolyzer.lib.proxy.caps import CapData, CapType
+        if not self.sessions:
+            return None
+        a = min(self.sessions)
+        kind = "upload" if self.cur_tgt_kind == "normal" else "normal"
+        name = {"upload": "NewFileAgentInventory", "normal": "FetchInventory2"}[kind]
+        return CapData(name, weakref.ref(self.regions[(a, 2)]), weakref.ref(self.sessions[a]),
+                       self.urls[(kind, a, 2)], CapType.NORMAL)
 
     def close_session(self, s):
         """The viewer of session s logs out: SessionManager.close_session, then every strong
@@ -575,6 +595,7 @@ class FlowDriver:
         w.AddonManager._SWALLOW_ADDON_EXCEPTIONS = bool(cfg["swallow"])
         w.sm.message_logger = Logger(cfg["fault"] == "logger") if cfg["logger"] else None
         w.ctx.to_proxy_queue.on_put = self.on_put
+        w.cur_tgt_kind = self.tgt[0]
         before = w.hook_calls
         st, res = "ok", None
         # response-phase fault: besides the malformed body, the session's and the region's HTTP
@@ -878,7 +899,8 @@ def _b1(chk: Check, c, label):
     gc.collect()
 
 
-ALLB = BEHAVIOURS
+ALLB = BEHAVIOURS[:10]      # the behaviours that leave the attribution alone
+RECAP = ["ignore", "take", "takeResume", "inject", "raise", "handled", "clearcap", "setcap"]
 
 
 def run(chk: Check):
@@ -897,6 +919,7 @@ def run(chk: Check):
         "whether an injected asset response is handed to the main process at all is left open (not explored)",
         "server responses have status 200; no asset is served from the local asset repo; no cached EventQueueGet reply",
         "B2: a temporary cap URL / an EventQueueGet URL is used by one flow per world (consumed / cached otherwise)",
+        "addons that change the attribution either clear it (flow.cap_data = None) or set one fixed other cap of the universe",
         "SessionCloses = SessionManager.close_session + the session's and regions' objects unreferenced and collected "
         "(driver drops its references and runs gc.collect(); still-referenced objects are a MachineryError); B1 explores one "
         "closing per flow after its first event was handled, B2 closes at any time",
@@ -906,7 +929,9 @@ def run(chk: Check):
     B6 = ["ignore", "take", "takeResume", "resume", "inject", "raise"]
     if chk.tier == "quick":
         _b1(chk, dict(kinds=KINDS, pairs=[21], behaviours=ALLB, naddons=1, faults=F3, maxcalls=1, bad=[False, True]), "N1-s2r1")
-        _b1(chk, dict(kinds=["normal", "seed"], pairs=[12], behaviours=ALLB, naddons=1, faults=F3, maxcalls=1, bad=[False]), "N1-s1r2")
+        _b1(chk, dict(kinds=["normal", "seed", "login"], pairs=[12], behaviours=RECAP, naddons=1, faults=F3, maxcalls=1, bad=[False]), "N1-s1r2-recap")
+        _b1(chk, dict(kinds=["normal"], pairs=[21], behaviours=["ignore", "clearcap", "setcap", "take"], naddons=2, faults=["none"],
+                      maxcalls=1, bad=[False]), "N2-recap")
         _b1(chk, dict(kinds=["normal", "proxyonly"], pairs=[22], behaviours=B6, naddons=2, faults=["none"], maxcalls=1, bad=[False]), "N2")
         _b1(chk, dict(kinds=["normal", "seed", "none"], pairs=[21], behaviours=["ignore", "take", "takeResume", "inject", "raise"],
                       naddons=1, faults=["none"], maxcalls=1, bad=[False], close=[1, 2]), "close")
@@ -920,6 +945,8 @@ def run(chk: Check):
                       maxcalls=1, bad=[False]), "N2")
         _b1(chk, dict(kinds=["normal", "seed", "wrapper", "proxyonly", "none"], pairs=[12], behaviours=ALLB, naddons=1,
                       faults=["none", "cap"], maxcalls=1, bad=[False], close=[1, 2]), "close")
+        _b1(chk, dict(kinds=KINDS, pairs=[12], behaviours=["ignore", "clearcap", "setcap", "take", "takeResume", "inject", "handled"],
+                      naddons=1, faults=F3, maxcalls=1, bad=[False], close=[1, 2]), "recap")
         _b2(chk, 1600, 5, "walks")
     if chk.cov.get("b1_raise_points_expected", 0) and not chk.cov.get("b1_raise_points_reached", 0) and not chk.violations:
         raise common.MachineryError("no scripted fault ever made pump_proxy_event raise: fault injection is vacuous")
